@@ -278,7 +278,7 @@ class Machine:
 
     def init_atoms(self):
         self.heap["atoms"] = {"P": ("init", "P"), "M": ("init", "M"), "A": ("init", "A"), "C": ("init", "C"), "K": ("init", "K")}
-        self.heap["calc"] = {"R": ("noresults",)}
+        self.heap["calc"] = {"R": ("noresults",), "I": ("none",)}  # I: atom set the calculator's per-atom internal state was built for
         self.heap["calcatoms"] = {"P": ("none",), "A": ("none",), "C": ("none",)}
 
     def config(self):
@@ -301,6 +301,15 @@ class Machine:
                 return V(("E", r[1], what))
             return V(("E?", r, what))
         self.evals += 1
+        # per-atom internal state (neighbour lists, …): ASE calculators rebuild it when `numbers` is among the reported
+        # changes, i.e. when calc.atoms' atom set differs from the live one; otherwise they update it in place
+        # assuming it was built for this atom set
+        ca_A = simp(self.heap["calcatoms"]["A"])
+        I = self.heap["calc"].get("I", ("none",))
+        if ca_A != cfg[2] or I == ("none",) or self.heap["calc"]["R"] == ("noresults",) and ca_A == ("none",):
+            self.heap["calc"]["I"] = cfg[2]
+        elif simp(I) != cfg[2]:
+            self.log("calc-stale-state", f"{what}: evaluation with per-atom calculator state built for another atom set", node, fi, {"I": I, "A": cfg[2]})
         self.heap["calc"]["R"] = ("res", cfg)
         ca = self.heap["calcatoms"]
         ca["P"], ca["C"], ca["A"] = cfg[0], cfg[1], cfg[2]
